@@ -267,7 +267,18 @@ func drawStr(t *rapid.T, label string) ([]byte, bool) {
 			b[i] = ch[rapid.IntRange(0, len(ch)-1).Draw(t, label+"D")]
 		}
 		return b, n > 20
-	default: // a valid base32 secret
+	case 8: // a suite string with one token damaged by invalid UTF-8 / odd bytes (case folding and slicing disagree on such text)
+		base := rapid.SampledFrom([]string{"OCRA-1:HOTP-SHA1-6:S", "OCRA-1:HOTP-SHA1-6:QN08-S064", "OCRA-1:HOTP-SHA256-8:C-QN08-PSHA1-S-T1M", "OCRA-1:HOTP-SHA1-6:QN08", "OCRA-1:HOTP-SHA1-6:C-T30S"}).Draw(t, label+"SB")
+		junk := rapid.SampledFrom([]string{"\xff", "\xff\xfe", "\xc3", "\xe6\x97", "\x00", "\u00e9", "\u017f", "\u212a", "\ufffd"}).Draw(t, label+"SJ")
+		k := rapid.IntRange(0, len(base)).Draw(t, label+"SP")
+		if rapid.Bool().Draw(t, label+"SR") && k < len(base) {
+			return []byte(base[:k] + junk + base[k+1:]), true
+		}
+		return []byte(base[:k] + junk + base[k:]), true
+	default: // a valid base32 secret, in a third of the cases of a length around the HMAC block sizes
+		if rapid.IntRange(0, 2).Draw(t, label+"SL") == 0 {
+			return []byte(ref.B32(gen.Key().Draw(t, label+"SK"))), false
+		}
 		return []byte(ref.B32(rapid.SliceOfN(rapid.Byte(), 1, 40).Draw(t, label+"S"))), false
 	}
 }
